@@ -10,6 +10,7 @@ package httpserver
 // reload, and a request started after reload returned sees B.
 
 import (
+	"fmt"
 	"strings"
 	"testing"
 	"testing/synctest"
@@ -132,6 +133,47 @@ func TestVerifC11mux(t *testing.T) {
 			}
 			c.Outcome(g1 + g2)
 		}
-		mc.RunJobsAll("C11", []mc.Job{mc.ExploreJob(mc.Options{Job: "mux-reload", MaxDev: maxDev}, run)})
+		// once the update has been applied every new request sees the new generation: after warm-up requests under
+		// spec A and reload(B), every request must be answered exactly as a fresh mux built from B answers it
+		specs := []string{c11SpecA, c11SpecB,
+			strings.Replace(c11SpecA, "clientMaxBodySize: 10\n", "clientMaxBodySize: 10\ncacheSize: 8\n", 1),
+			strings.Replace(c11SpecA, "clientMaxBodySize: 10\n", "clientMaxBodySize: 10\ncacheSize: 8\nipFilter: {blockIPs: [6.6.6.6]}\n", 1),
+			strings.Replace(c11SpecA, "clientMaxBodySize: 10\n", "clientMaxBodySize: 10\ncacheSize: 8\nipFilter: {blockByDefault: true, allowIPs: [6.6.6.6]}\n", 1),
+			strings.Replace(c11SpecB, "clientMaxBodySize: 100\n", "clientMaxBodySize: 100\ncacheSize: 8\n", 1),
+			strings.Replace(strings.Replace(c11SpecA, "clientMaxBodySize: 10\n", "clientMaxBodySize: 10\ncacheSize: 8\n", 1), "path: /x", "path: /y", 1),
+		}
+		reqs := []vReq{
+			{Host: "h", Path: "/x", Method: "POST", Remote: "1.2.3.4", Body: "small"},
+			{Host: "h", Path: "/x", Method: "POST", Remote: "6.6.6.6", Body: "small"},
+			{Host: "h", Path: "/y", Method: "POST", Remote: "1.2.3.4", Body: "small"},
+			{Host: "h", Path: "/x", Method: "POST", Remote: "1.2.3.4", Body: strings.Repeat("b", 50)},
+		}
+		diff := func(c *mc.Ctx) {
+			a := c.Choose(len(specs), "spec-before")
+			b := c.Choose(len(specs), "spec-after")
+			rig, err := newVRig(specs[a])
+			if err != nil {
+				c.Failf("spec-rejected", "%v", err)
+			}
+			for i := 0; i < 2; i++ {
+				if k := c.Choose(len(reqs)+1, "warm-up-request"); k > 0 {
+					rig.do(reqs[k-1])
+				}
+			}
+			ssb, err := vNewSpec(specs[b])
+			if err != nil {
+				c.Failf("spec-rejected", "%v", err)
+			}
+			rig.m.reload(ssb, rig)
+			fresh, _ := newVRig(specs[b])
+			for i, q := range reqs {
+				got, want := rig.do(q), fresh.do(q)
+				if got != want {
+					c.Failf("reloaded-server-differs-from-fresh-one", "spec %d -> reload -> spec %d: request %d (%s) answered %s, a fresh server with the new spec answers %s\nold spec:\n%s\nnew spec:\n%s", a, b, i, q, got, want, specs[a], specs[b])
+				}
+			}
+			c.Outcome(fmt.Sprintf("%d->%d", a, b))
+		}
+		mc.RunJobsAll("C11", []mc.Job{mc.ExploreJob(mc.Options{Job: "mux-reload", MaxDev: maxDev}, run), mc.ExploreJob(mc.Options{Job: "mux-reload-differential", MaxDev: -1}, diff)})
 	})
 }
